@@ -171,3 +171,17 @@ PROPS["C09"] = {
         "RwLock guards are transparent under the sequential reading",
     ],
 }
+
+PROPS["C15"] = {
+    "level": "other",
+    "technique": "Verus contracts on the extracted partition loops (Ingester::split_batch_by_key and ShardSplitter::split_batch: every row index on exactly one side, rows below the split point on the lower side, rows at or above it on the upper side, order kept), on write_with_split_awareness (effect order; lower side to new_shards[0], upper side to new_shards[1], each non-empty side to exactly one new shard) and on the keep-mask loop of dedup_batches (exactly the rows equal in every column to an earlier row are masked)",
+    "verus": ["c15_split.rs.in"],
+    "explanation": "Row routing and row-level de-duplication are proved for all batches and split points. Not provable by a contract on the existing structure and recorded as a known finding: de-duplication is applied to the result of the SQL, i.e. after aggregation, so aggregates over double-written rows are inflated while a split is active; batches whose metric_name column is dictionary encoded pass through un-deduplicated.",
+    "assumptions": [
+        "arrow accessors: Int64Array::value(i), RecordBatch::num_rows, take_record_batch selects exactly the given row indices, filter_record_batch keeps exactly the rows whose mask is true",
+        "arrow row format (RowConverter) is injective: two row keys are equal iff the rows agree in every column",
+        "batches have at most u32::MAX rows (i as u32 is lossless)",
+        "the split state lists exactly two new shards",
+        "i64::from_be_bytes / try_into: 8 big-endian bytes or an error",
+    ],
+}
